@@ -14,6 +14,9 @@ fn main() {
         libc::mallopt(libc::M_TRIM_THRESHOLD, 1 << 30);
         libc::mallopt(libc::M_TOP_PAD, 64 << 20);
     }
+    if std::env::var("VERIF_TRACE").is_ok() {
+        let _ = tracing_subscriber::fmt().with_max_level(tracing::Level::TRACE).with_writer(std::io::stderr).try_init();
+    }
     install_panic_hook();
     let args: Vec<String> = std::env::args().skip(1).collect();
     if args.is_empty() {
